@@ -55,6 +55,7 @@ pub mod sample {
                 };
             }
         }
+        #[cfg(feature = "verif")] crate::verif::rng_hooks::record_sample("ternary", parms, destination);
     }
 
     /*
@@ -116,6 +117,7 @@ pub mod sample {
                     };
             }
         }
+        #[cfg(feature = "verif")] crate::verif::rng_hooks::record_sample("centered_binomial", parms, destination);
     }
 
     pub fn uniform<T: Rng>(rng: &mut T, parms: &EncryptionParameters, destination: &mut[u64]) {
@@ -130,6 +132,7 @@ pub mod sample {
                 destination[i + j * coeff_count] = rng.sample(distribution);
             }
         }
+        #[cfg(feature = "verif")] crate::verif::rng_hooks::record_sample("uniform", parms, destination);
     }
 
 }
